@@ -287,6 +287,178 @@ def pred_case(args):
 
 
 
+# ----------------------------------------------------------------------------------------------
+# expression row-isolation leg (SQL level): any expression the binder accepts - arithmetic over all
+# numeric types, CASE, CAST, EXTRACT, SUBSTRING, REPLACE, REPEAT, ||, LIKE, IN, BETWEEN, IS NULL, 3VL -
+# evaluated over the whole table must give, for every row, the value it gives for that row alone
+# (SELECT e FROM p WHERE id = k: the expression then sees a one-row chunk), and the statement over the
+# table fails exactly when it fails for some row alone. No reference semantics: two executions of the
+# real evaluator are compared.
+
+XCOLS = dict(int=["a", "b"], big=["g"], small=["h"], dbl=["f"], dec=["d"], str=["s", "t"], bool=["c"], date=["dt"])
+
+
+def gen_x(rng, ty, d=0):
+    leaf = d >= 3 or rng.random() < 0.3
+    if ty == "int":
+        if leaf:
+            return rng.choice(XCOLS["int"] + [str(rng.choice([0, 1, -1, 2, 7, 2147483647, 100000]))])
+        k = rng.choice(["arith", "arith", "neg", "case", "cast", "extract", "mod", "small", "len"])
+        if k == "arith":
+            return f"({gen_x(rng, 'int', d + 1)} {rng.choice(['+', '-', '*', '/'])} {gen_x(rng, 'int', d + 1)})"
+        if k == "mod":
+            return f"({gen_x(rng, 'int', d + 1)} % {gen_x(rng, 'int', d + 1)})"
+        if k == "neg":
+            return f"(- {gen_x(rng, 'int', d + 1)})"
+        if k == "case":
+            return f"(CASE WHEN {gen_x(rng, 'bool', d + 1)} THEN {gen_x(rng, 'int', d + 1)} ELSE {gen_x(rng, 'int', d + 1)} END)"
+        if k == "cast":
+            src = rng.choice(["str", "dbl", "dec", "big", "bool"])
+            return f"CAST({gen_x(rng, src, d + 2)} AS INT)"
+        if k == "extract":
+            return f"EXTRACT({rng.choice(['YEAR', 'MONTH', 'DAY'])} FROM dt)"
+        if k == "small":
+            return f"CAST((h + {rng.choice(['h', '1', '32000'])}) AS INT)"
+        return f"CAST({gen_x(rng, 'big', d + 1)} AS INT)"
+    if ty == "big":
+        if leaf:
+            return rng.choice(["g", "CAST(a AS BIGINT)", "9223372036854775807"])
+        return f"({gen_x(rng, 'big', d + 1)} {rng.choice(['+', '-', '*'])} {gen_x(rng, rng.choice(['big', 'int']), d + 1)})"
+    if ty == "dbl":
+        if leaf:
+            return rng.choice(["f", "1.5", "CAST(a AS DOUBLE)", "0.0"])
+        return f"({gen_x(rng, 'dbl', d + 1)} {rng.choice(['+', '-', '*', '/'])} {gen_x(rng, 'dbl', d + 1)})"
+    if ty == "dec":
+        if leaf:
+            return rng.choice(["d", "CAST(a AS DECIMAL(10,2))", "CAST(f AS DECIMAL(10,2))"])
+        return f"({gen_x(rng, 'dec', d + 1)} {rng.choice(['+', '-', '*'])} {gen_x(rng, 'dec', d + 1)})"
+    if ty == "str":
+        if leaf:
+            return rng.choice(XCOLS["str"] + ["'a'", "''", "'10'", "'abc'"])
+        k = rng.choice(["concat", "substr", "replace", "repeat", "cast"])
+        if k == "concat":
+            return f"({gen_x(rng, 'str', d + 1)} || {gen_x(rng, 'str', d + 1)})"
+        if k == "substr":
+            return f"SUBSTRING({gen_x(rng, 'str', d + 1)} FROM {rng.choice(['1', '2', '0', '-1', 'a', 'b'])} FOR {rng.choice(['1', '2', '10', 'b', '0'])})"
+        if k == "replace":
+            return f"REPLACE({gen_x(rng, 'str', d + 1)}, '{rng.choice(['a', 'ab', '', 'b'])}', '{rng.choice(['', 'x', 'aa'])}')"
+        if k == "repeat":
+            return f"REPEAT({gen_x(rng, 'str', d + 1)}, {rng.choice(['0', '1', '2', '3'])})"
+        return f"CAST({gen_x(rng, rng.choice(['int', 'dbl', 'bool', 'date', 'dec']), d + 2)} AS VARCHAR)"
+    if ty == "bool":
+        if leaf:
+            return rng.choice(["c", "true", "false", "(a IS NULL)", "(s IS NOT NULL)"])
+        k = rng.choice(["cmp", "cmp", "scmp", "like", "in", "between", "and", "or", "not", "dcmp"])
+        if k == "cmp":
+            t = rng.choice(["int", "int", "big", "dbl", "dec"])
+            return f"({gen_x(rng, t, d + 1)} {rng.choice(['=', '<>', '<', '<=', '>', '>='])} {gen_x(rng, t, d + 1)})"
+        if k == "scmp":
+            return f"({gen_x(rng, 'str', d + 1)} {rng.choice(['=', '<>', '<', '>='])} {gen_x(rng, 'str', d + 1)})"
+        if k == "dcmp":
+            return f"(dt {rng.choice(['=', '<', '>='])} DATE '{rng.choice(['2000-01-01', '1999-12-31', '2024-02-29'])}')"
+        if k == "like":
+            return f"({gen_x(rng, 'str', d + 1)} {'NOT ' if rng.random() < 0.3 else ''}LIKE '{rng.choice(PATTERNS)}')"
+        if k == "in":
+            return f"({gen_x(rng, 'int', d + 1)} {'NOT ' if rng.random() < 0.3 else ''}IN ({rng.randint(-1, 3)}, {rng.randint(0, 7)}))"
+        if k == "between":
+            return f"({gen_x(rng, 'int', d + 1)} BETWEEN {rng.randint(-1, 2)} AND {rng.randint(1, 7)})"
+        if k == "not":
+            return f"(NOT {gen_x(rng, 'bool', d + 1)})"
+        return f"({gen_x(rng, 'bool', d + 1)} {k.upper()} {gen_x(rng, 'bool', d + 1)})"
+    if ty == "date":
+        return rng.choice(["dt", "DATE '2000-01-01'"])
+    raise ValueError(ty)
+
+
+def _xlit(v):
+    if v is None:
+        return "NULL"
+    if isinstance(v, bool):
+        return "true" if v else "false"
+    if isinstance(v, str):
+        return v if v.startswith("DATE ") else "'" + v + "'"
+    return str(v)
+
+
+def rowiso_case(args):
+    seed, idx, n = args
+    rng = random.Random(f"c14-rowiso-{seed}-{idx}")
+    res = dict(violations=[], evals=0, judged=0, rows_compared=0, both_fail=0, distinct=[], inconclusive=None, samples=[])
+    engine = "mem" if idx % 2 == 0 else "disk"
+    rl = RL(engine, dict(block=64, rowset=400, crc=True, first_key=True))
+    try:
+        r = rl.sql("CREATE TABLE p(id INT NOT NULL, a INT, b INT, g BIGINT, h SMALLINT, f DOUBLE, d DECIMAL(10,2), s VARCHAR, t VARCHAR, c BOOLEAN, dt DATE)")
+        if not r["ok"]:
+            res["inconclusive"] = "create failed"
+            return res
+        nrows = rng.choice([3, 40, 66, 130])
+        rows = []
+        for i in range(nrows):
+            rows.append([i, rng.choice([None, 0, 1, 2, 3, -1, 2147483647]), rng.choice([None, 0, 1, 2]),
+                         rng.choice([None, 0, 1, 4294967296, 9223372036854775807]), rng.choice([None, 0, 1, 32767, -32768]),
+                         rng.choice([None, 0.0, 1.5, -2.25, 123456789012345.5]), rng.choice([None, "0", "1.50", "-2.25", "99999999.99"]),
+                         rng.choice([None, None, "", "a", "ab", "10", "abc"]), rng.choice([None, "", "a", "7"]),
+                         rng.choice([None, True, False]), rng.choice([None, "DATE '2000-01-01'", "DATE '2024-02-29'", "DATE '1999-12-31'"])])
+        for i in range(0, nrows, 40):
+            vals = ", ".join("(" + ", ".join(_xlit(v) if j != 6 or v is None else v for j, v in enumerate(row)) + ")" for row in rows[i:i + 40])
+            r = rl.sql(f"INSERT INTO p VALUES {vals}")
+            if not r["ok"]:
+                res["inconclusive"] = "insert failed: " + r.get("err", "")[:80]
+                return res
+        for _ in range(n):
+            ty = rng.choice(["int", "int", "str", "bool", "bool", "dbl", "dec", "big"])
+            e = gen_x(rng, ty)
+            whole = rl.sql(f"SELECT id, {e} AS v FROM p")
+            res["evals"] += 1
+            if whole.get("dead"):
+                res["inconclusive"] = "runner died"
+                break
+            if not whole["ok"] and whole.get("kind") in ("bind", "parse"):
+                continue   # not an accepted expression
+            ids = list(range(nrows)) if not whole["ok"] else rng.sample(range(nrows), min(nrows, 12))
+            alone, alone_err = {}, {}
+            for k in ids:
+                r = rl.sql(f"SELECT {e} AS v FROM p WHERE id = {k}")
+                res["evals"] += 1
+                if r.get("dead"):
+                    res["inconclusive"] = "runner died"
+                    break
+                if r["ok"]:
+                    alone[k] = r["rows"][0][0] if r["rows"] else "<no row>"
+                else:
+                    alone_err[k] = (r.get("err") or "")[:80]
+            if res["inconclusive"]:
+                break
+            res["judged"] += 1
+            res["distinct"].append(h(e))
+            if len(res["samples"]) < 2:
+                res["samples"].append(e[:160])
+            if whole["ok"]:
+                got = {row[0]: row[1] for row in whole["rows"]}
+                res["rows_compared"] += len(alone)
+                if alone_err:
+                    k = sorted(alone_err)[0]
+                    res["violations"].append(dict(signature="rowiso:batch-ok-row-fails", sql=e,
+                                                  what=f"SELECT {e}: over the table it returns values, for row id={k} alone it fails ({alone_err[k]}); row {rows[k]}"))
+                    continue
+                bad = [(k, got.get(k), v) for k, v in alone.items() if got.get(k) != v]
+                if bad:
+                    k, g, v = bad[0]
+                    res["violations"].append(dict(signature="rowiso:row-differs-in-batch", sql=e,
+                                                  what=f"SELECT {e}: row id={k} is {g!r} over the table and {v!r} alone; row {rows[k]}"))
+            else:
+                if not alone_err:
+                    res["violations"].append(dict(signature="rowiso:batch-fails-no-row-does", sql=e,
+                                                  what=f"SELECT {e} over {nrows} rows fails ({whole.get('err', '')[:80]} {whole.get('panics')}); every row alone evaluates"))
+                else:
+                    res["both_fail"] += 1
+    except Exception as ex:
+        res["inconclusive"] = f"harness: {type(ex).__name__}: {ex}"
+    finally:
+        rl.close()
+    return res
+
+
 def sentinel(w):
     rl = RL("mem")
     try:
@@ -377,9 +549,25 @@ def run(tier, seed):
             rep.sample(s_, limit=7)
         for v in res["violations"]:
             rep.add_violation(Violation(v["signature"], v["what"], dict(sql=v["sql"], signature=v["signature"], predicate=True)))
+    nx = 12 if tier == "quick" else 250
+    xs, xrows, xfail = set(), 0, 0
+    for res in parallel_map(rowiso_case, [(seed, i, nx) for i in range(16)]):
+        rep.evaluations += res["evals"]
+        xrows += res["rows_compared"]
+        xfail += res["both_fail"]
+        xs.update(res["distinct"])
+        if res["inconclusive"]:
+            rep.inc("row-isolation SQL leg: " + res["inconclusive"][:50])
+        for s_ in res["samples"]:
+            rep.sample(dict(rowiso=s_), limit=11)
+        for v in res["violations"]:
+            rep.add_violation(Violation(v["signature"], v["what"], dict(sql=v["sql"], signature=v["signature"], rowiso=True)))
+    rep.coverage.update(rowiso_sql_expressions_judged=len(xs), rowiso_sql_rows_compared_with_the_row_alone=xrows,
+                        rowiso_sql_expressions_failing_over_the_table_and_for_some_row=xfail)
+    rep.floor("row-isolation SQL leg: expressions judged", len(xs), nx * 8)
     run_sentinels(rep, sentinel)
     rep.evaluations += rows + iso["rows"]
-    rep.distinct = len(combos) + len(folds) + len(preds) + len(iso["combos"])
+    rep.distinct = len(combos) + len(folds) + len(preds) + len(iso["combos"]) + len(xs)
     rep.coverage.update(kernel_cases=cases, kernel_row_evaluations=rows, operator_type_combinations=len(combos),
                         constant_expressions_equal_on_both_sides=tot["ok"], constant_expressions_failing_on_both_sides=tot["fail"])
     rep.floor("operator/type combinations judged", len(combos), 150)
